@@ -6,14 +6,14 @@ package main
 //	<tr> = grpc | http (security.AuthContext with a gRPC context / with an *http.Request)
 //	authn oidc <tr> <td> <expected audiences> <hdrform> <tokkind> <sub> <audkind> <aud>
 //	      real NewJwtAuthenticator against an in-process JWKS endpoint; tokens minted with go-jose.
-//	      hdrform: none bearer istio basic two; tokkind: garbage expired wrongiss otherkey ok; audkind: list string absent
+//	      hdrform: none bearer istio basic bb (Basic, Bearer tok) two (Bearer other, Bearer tok) two2 (Bearer tok, Bearer other); tokkind: garbage expired wrongiss otherkey ok; audkind: list string absent
 //	authn kube <tr> <td> <primary> <aliases a=b,..> <remotes|nil> <clusterid hdr|-> <hdrform> <token> <TokenAudiences> <review>
 //	      real NewKubeJWTAuthenticator over fake clientsets whose TokenReview reactor is scripted and
 //	      records the submitted Spec (token, audiences) and the cluster asked.
 //	      review: apiErr|error|authenticated|groups|username|podNameExtra|podUIDExtra  (extras: "-" absent, else list)
 //	authn xfcc <tr> <cidrs> <peer addr|nopeer> <header values|-> <parsed>
 //	      real XfccAuthenticator; `parsed` is what the third-party xfccparser returns for the first
-//	      header value (the model takes the parse as given): err | list of uris|dns|hasSubject|cn
+//	      EVERY header value, in order (the model takes the parser as given): list of (err | list of uris|dns|hasSubject|cn)
 //	authn cert <tr> <peer nopeer|noauth|other|tls> <chains>
 //	      real ClientCertAuthenticator; chains: list of chains, chain = certs joined by '|',
 //	      cert = nosan | bad | san:<entries>, entry = D:<s> U:<s> I:<hex> E:<s>
@@ -205,7 +205,9 @@ func (g *remoteGetter) GetRemoteKubeClient(id cluster.ID) kubernetes.Interface {
 
 func (g *remoteGetter) ListClusters() []cluster.ID { return g.order }
 
-func scriptedClient(name string, r reviewSpec, via *string) kubernetes.Interface {
+// scriptedClient is a fake API server: it authenticates (with the scripted review) only the expected
+// token reviewed for the expected audiences; every other review is answered "not authenticated".
+func scriptedClient(name string, r reviewSpec, via *string, expTok string, expAud []string) kubernetes.Interface {
 	c := fake.NewSimpleClientset()
 	c.PrependReactor("create", "tokenreviews", func(action ktesting.Action) (bool, runtime.Object, error) {
 		// record what was submitted: which cluster's API server, which token, which audiences
@@ -217,6 +219,13 @@ func scriptedClient(name string, r reviewSpec, via *string) kubernetes.Interface
 		}
 		if r.apiErr {
 			return true, nil, errors.New("api server unavailable")
+		}
+		if ca, ok := action.(ktesting.CreateAction); ok {
+			if in, ok := ca.GetObject().(*k8sauth.TokenReview); ok {
+				if in.Spec.Token != expTok || strings.Join(in.Spec.Audiences, "\x00") != strings.Join(expAud, "\x00") {
+					return true, &k8sauth.TokenReview{}, nil
+				}
+			}
 		}
 		tr := &k8sauth.TokenReview{}
 		tr.Status.Error = r.errMsg
@@ -363,7 +372,8 @@ type prepared struct {
 	via      *string
 }
 
-func authValues(form, tok string) []string {
+// authValues: the `authorization` values of a header form; `other` is a second, invalid token.
+func authValues(form, tok, other string) []string {
 	switch form {
 	case "bearer":
 		return []string{"Bearer " + tok}
@@ -371,10 +381,23 @@ func authValues(form, tok string) []string {
 		return []string{"Istio " + tok}
 	case "basic":
 		return []string{"Basic dXNlcjpwYXNz"}
-	case "two":
+	case "bb":
 		return []string{"Basic dXNlcjpwYXNz", "Bearer " + tok}
+	case "two":
+		return []string{"Bearer " + other, "Bearer " + tok}
+	case "two2":
+		return []string{"Bearer " + tok, "Bearer " + other}
 	}
 	return nil
+}
+
+// parsedXFCCAll renders the third-party parse of every header value, in order.
+func parsedXFCCAll(hs []string) string {
+	var l []string
+	for _, h := range hs {
+		l = append(l, parsedXFCC(h))
+	}
+	return wire.EncList(l)
 }
 
 // prepare builds the REAL authenticator described by an `authn` line (f[0] is the kind).
@@ -404,7 +427,11 @@ func (s *authnSUT) prepare(f []string) (*prepared, error) {
 		if err != nil {
 			return nil, err
 		}
-		if v := authValues(f[4], tok); v != nil {
+		other, err := s.oidc.token("otherkey", "system:serviceaccount:kube-system:admin", "list", wire.DecList(f[3]))
+		if err != nil {
+			return nil, err
+		}
+		if v := authValues(f[4], tok, other); v != nil {
 			p.md["authorization"] = v
 		}
 	case "kube":
@@ -421,17 +448,17 @@ func (s *authnSUT) prepare(f []string) (*prepared, error) {
 		if f[5] != "nil" {
 			g := &remoteGetter{clients: map[cluster.ID]kubernetes.Interface{}}
 			for _, id := range wire.DecList(f[5]) {
-				g.clients[cluster.ID(id)] = scriptedClient("remote:"+id, review, p.via)
+				g.clients[cluster.ID(id)] = scriptedClient("remote:"+id, review, p.via, wire.Dec(f[8]), wire.DecList(f[9]))
 				g.order = append(g.order, cluster.ID(id))
 			}
 			getter = g
 		}
 		security.TokenAudiences = wire.DecList(f[9])
-		p.auth = kubeauth.NewKubeJWTAuthenticator(meshHolder{wire.Dec(f[2])}, scriptedClient("primary", review, p.via), cluster.ID(wire.Dec(f[3])), aliases, getter)
+		p.auth = kubeauth.NewKubeJWTAuthenticator(meshHolder{wire.Dec(f[2])}, scriptedClient("primary", review, p.via, wire.Dec(f[8]), wire.DecList(f[9])), cluster.ID(wire.Dec(f[3])), aliases, getter)
 		if f[6] != "-" {
 			p.md["clusterid"] = wire.DecList(f[6])
 		}
-		if v := authValues(f[7], wire.Dec(f[8])); v != nil {
+		if v := authValues(f[7], wire.Dec(f[8]), "other-token"); v != nil {
 			p.md["authorization"] = v
 		}
 	case "xfcc":
